@@ -844,6 +844,84 @@ def run_faultfree(ctx, rng, spec, root, only=None):
                         ctx.monitor('faultfree_calls_that_failed')
                         dest.judge(case, '%s (no fault injected; it %s)' % (variant, failure))
                     shutil.rmtree(work, ignore_errors=True)
+        # states of the library call itself: the Game names a file that is not there (any more), the destination is locked by another
+        # open file, the Lua writer's output depends on the arguments it is given
+        import fcntl
+        from pico8.lua import lua as lua_mod
+
+        class ArgsWriter(lua_mod.LuaEchoWriter):
+            # a caller's writer: with {'banner': text} it puts the text before the code; the text given below is not Lua
+            def to_lines(self):
+                if self._args.get('banner'):
+                    yield self._args['banner']
+                for l in super().to_lines():
+                    yield l
+        for variant in ('game_filename_absent', 'game_filename_deleted_after_load', 'game_filename_is_directory', 'game_filename_other_cart',
+                        'dest_flock_held', 'dest_lockf_held', 'writer_args_make_output_unparseable', 'writer_args_harmless'):
+            for fmt in ('p8', 'png'):
+                for exists in (False, True):
+                    if only is not None:
+                        continue
+                    if variant.startswith('dest_') and not exists:
+                        continue
+                    n += 1
+                    work = os.path.join(root, 'ffstate%d' % n)
+                    os.makedirs(work)
+                    ext = '.p8' if fmt == 'p8' else '.p8.png'
+                    code = carts.varied_lua(rng, 200)
+                    regions, _ = carts.random_regions(rng, 'sparse')
+                    src = os.path.join(work, 'loaded' + ext)
+                    with open(src, 'wb') as fh:
+                        fh.write(rc.write_p8(regions, code, version=8) if fmt == 'p8' else rc.write_p8png(regions, rc.raw_code_area(code), 8))
+                    out = os.path.join(work, 'saved' + ext)
+                    if exists:
+                        with open(out, 'wb') as fh:
+                            fh.write(rc.write_p8(regions, b'old=1\n', version=8) if fmt == 'p8' else rc.write_p8png(regions, rc.raw_code_area(b'old=1\n'), 8))
+                    g = p8file.from_file(src)
+                    kw = {}
+                    held = None
+                    if variant == 'game_filename_absent':
+                        g.filename = os.path.join(work, 'never-saved' + ext)
+                    elif variant == 'game_filename_deleted_after_load':
+                        os.remove(src)
+                    elif variant == 'game_filename_is_directory':
+                        g.filename = work
+                    elif variant == 'game_filename_other_cart':
+                        os.chmod(src, 0o400)
+                    elif variant == 'dest_flock_held':
+                        held = open(out, 'rb')
+                        fcntl.flock(held, fcntl.LOCK_EX)
+                    elif variant == 'dest_lockf_held':
+                        held = open(out, 'r+b')
+                        fcntl.lockf(held, fcntl.LOCK_EX)
+                    elif variant == 'writer_args_make_output_unparseable':
+                        kw = {'lua_writer_cls': ArgsWriter, 'lua_writer_args': {'banner': b'this = = is not lua (\n'}}
+                    else:
+                        kw = {'lua_writer_cls': ArgsWriter, 'lua_writer_args': {'banner': b'-- saved by a tool\n'}}
+                    dest = PlainDest(ctx, out, fmt)
+                    case = {'injector': 'faultfree', 'variant': variant, 'fmt': fmt, 'exists': exists}
+                    failure = None
+                    try:
+                        p8file.to_file(g, out, **kw)
+                    except BaseException as e:
+                        failure = 'raised %r' % (e,)
+                    finally:
+                        if held is not None:
+                            held.close()
+                    ctx.case(repr(sorted(case.items())), nontrivial=True)
+                    ctx.monitor('faultfree_calls')
+                    ctx.feature('faultfree_variant:' + variant)
+                    if failure is not None:
+                        ctx.monitor('faultfree_calls_that_failed')
+                        ctx.feature('faultfree_variant_failed:' + variant)
+                        dest.judge(case, 'file.to_file (%s; no fault injected; it %s)' % (variant, failure))
+                    elif variant == 'writer_args_make_output_unparseable' and fmt == 'p8':
+                        # "the transformed code does not re-parse" is one of the failures the property names: the reference lexer/parser
+                        # of this harness is not needed to know that `this = = is not lua (` is not Lua
+                        ctx.feature('unparseable_writer_output_was_not_refused')
+                        dest.judge(case, 're-parsing the transformed code (the writer puts its `banner` argument, which is not Lua, before the code; '
+                                         'file.to_file returned normally)')
+                    shutil.rmtree(work, ignore_errors=True)
     finally:
         os.chdir(here)
     ctx.sample({'faultfree': 'luamin / luafmt / writep8 / luafmt --overwrite / build / file.to_file on carts without code, destination spelled bare, '
@@ -954,6 +1032,12 @@ def gates(m, tier):
         missed.append('writer exception types %d, stale _fmt bystander %d' % (f.get('writer_exception_types', 0), f.get('stale_fmt_file_next_to_cart', 0)))
     if f.get('cli_first_invocation_fails', 0) < 10:
         missed.append('first-ever invocation on a cart fails: %d' % f.get('cli_first_invocation_fails', 0))
+    for v in ('game_filename_absent', 'game_filename_deleted_after_load', 'game_filename_is_directory', 'dest_flock_held', 'dest_lockf_held',
+              'writer_args_make_output_unparseable', 'writer_args_harmless'):
+        if f.get('faultfree_variant:' + v, 0) < 2:
+            missed.append('fault-free library state %s seen %d times' % (v, f.get('faultfree_variant:' + v, 0)))
+    if f.get('faultfree_variant_failed:writer_args_make_output_unparseable', 0) < 1:
+        missed.append('the writer whose arguments make its output unparseable never made a save fail')
     if f.get('faultfree_variant:to_file_in_thread', 0) < 4 or f.get('faultfree_variant:stdout_closed', 0) < 10:
         missed.append('fault-free calls from a worker thread: %d, with the output stream closed: %d' % (
             f.get('faultfree_variant:to_file_in_thread', 0), f.get('faultfree_variant:stdout_closed', 0)))
